@@ -261,6 +261,14 @@ func (s *scheduler) getRepairAddRequest(failedReplica replica,
 	okNodeCount := len(ctr.okReplicas)
 	existingMemberAddress := ctr.okReplicas[s.randomSrc.Int()%okNodeCount].Address
 	newReplicaID := s.randomSrc.Uint64()
+	for {
+		// the new member needs a non-zero id that no current member uses
+		_, used := ctr.shard.Replicas[newReplicaID]
+		if newReplicaID != 0 && !used {
+			break
+		}
+		newReplicaID = s.randomSrc.Uint64()
+	}
 	change := &pb.Request{
 		Type:         pb.Request_ADD,
 		ShardId:      ctr.shardID,
